@@ -128,6 +128,9 @@ pub fn hover_type(path: &Path, src: &str, line: u32, col: u32) -> Result<String,
     let offset = line_index
         .offset(line_index::LineCol { line, col })
         .ok_or_else(|| "failed to get offset from line and column".to_string())?;
+    if offset > TextSize::of(src) {
+        return Err("position is outside the text".to_string());
+    }
     let node = cst.syntax().token_at_offset(offset);
     let token = match node {
         rowan::TokenAtOffset::None => None,
